@@ -281,6 +281,46 @@ pub fn run(ctx: &mut Ctx) -> Report {
 		}
 		s.rep.exhaustive.push("private-key texts of generated keys (every algorithm) and of keys loaded from OpenSSL / ring documents (PKCS#8 v1, v2, SEC1, PKCS#1 as the build loads them, through each of the seven loading entry points) x the three PEM loaders".into());
 	}
+	// --- CA certificates at the edges of what a CA certificate can say: every path length, name
+	// constraints with empty bases, every key usage alone — rcgen's own loader reads its own text
+	#[cfg(not(feature = "nocrypto"))]
+	{
+		let key = s.ctx.key("ed25519");
+		let mut variants: Vec<(String, PCert)> = Vec::new();
+		for n in 0..=255u8 {
+			let mut p = PCert::default_like();
+			p.ca = Ca::Ca(Some(n));
+			variants.push((format!("path length {}", n), p));
+		}
+		for (name, nc) in [
+			("empty dNSName base permitted", (vec![Subtree::Dns("".into())], vec![])),
+			("empty rfc822Name base excluded", (vec![], vec![Subtree::Rfc822("".into())])),
+			("leading-dot base", (vec![Subtree::Dns(".example.com".into())], vec![])),
+			("address and /0 subnets", (vec![Subtree::Ip4p([0, 0, 0, 0], 0)], vec![Subtree::Ip6p([0; 16], 0)])),
+			("both empty lists", (vec![], vec![])),
+		] {
+			let mut p = PCert::default_like();
+			p.ca = Ca::Ca(None);
+			p.nc = Some(nc);
+			variants.push((format!("name constraints: {}", name), p));
+		}
+		for k in ALL_KU.iter() {
+			let mut p = PCert::default_like();
+			p.ca = Ca::Ca(None);
+			p.ku = vec![k.clone()];
+			variants.push((format!("key usage {}", ku_name(k)), p));
+		}
+		for (what, p) in variants {
+			let Some(rp) = p.real() else { continue };
+			let Ok(cert) = rp.self_signed(&key) else { continue };
+			s.rep.case(&format!("own loader on a CA certificate with {}", what), true);
+			s.rep.count("own_loader_ca_variants");
+			if let Err(e) = CertificateParams::from_ca_cert_pem(&cert.pem()) {
+				s.rep.violate("C14:own-loader:certificate", "from_ca_cert_pem refuses rcgen's own PEM", format!("CA certificate with {}: {:?}\n{}", what, e, cert.pem()));
+			}
+		}
+		s.rep.exhaustive.push("CA certificates with each of the 256 path lengths, 5 name-constraint shapes (empty bases, /0 subnets), each key usage alone: from_ca_cert_pem reads the text".into());
+	}
 	// --- large artefacts: a certificate and a request with thousands of alternative names (texts
 	// beyond 64 KiB and 128 KiB): same envelope rules, and rcgen's own loaders still read them
 	{
